@@ -213,6 +213,10 @@ func Run(dir, tier string, seed int64) error {
 		func(s *Scenario) { s.Mut = "valid" }, func(s *Scenario) { s.Mut = "valid" }, func(s *Scenario) { s.Mut = "valid" },
 		func(s *Scenario) { s.Mut = "issuer-unknown"; s.Issuer = idp.S("https://other.example/md") },
 		func(s *Scenario) { s.Mut = "issuer-absent"; s.Issuer = nil },
+		func(s *Scenario) { s.Mut = "issuer-padded"; s.Issuer = idp.S(" " + spEntity + " ") },
+		func(s *Scenario) { s.Mut = "issuer-case"; s.Issuer = idp.S(strings.ToUpper(spEntity)) },
+		func(s *Scenario) { s.Mut = "issuer-trailing-slash"; s.Issuer = idp.S(spEntity + "/") },
+		func(s *Scenario) { s.Mut = "issuer-empty"; s.Issuer = idp.S("") },
 		func(s *Scenario) { s.Mut = "sp-unregistered"; s.Known = false },
 		func(s *Scenario) { s.Mut = "no-nameid"; s.NameID = nil },
 		func(s *Scenario) { s.Mut = "no-subject"; s.NoSubject = true },
